@@ -9,6 +9,7 @@ package main
 import (
 	"bytes"
 	"encoding/binary"
+	"errors"
 	"fmt"
 	"io"
 	"math"
@@ -136,6 +137,9 @@ func miscErrKind(err error) string {
 		return "ok"
 	case err == y.ErrCommitAfterFinish:
 		return "err:commitafterfinish"
+	case errors.Is(err, badger.ErrTxnTooBig):
+		return "err:txntoobig" // also the wrapped form Flush builds from wb.err and throttle.Finish
+
 	case strings.HasPrefix(err.Error(), "SetEntryAt can only be used in managed mode"):
 		return "err:setentryat-unmanaged"
 	}
@@ -192,6 +196,7 @@ type batchSess struct {
 	segs    []wbSeg
 	nops    int
 	nsegs   int
+	opErr   bool            // some operation of the current batch was refused
 	want    map[string]wbOp // (key,version) -> last op, for the whole session
 	history map[string][]wbOp
 }
@@ -358,6 +363,7 @@ func execBatch(intents []string, st *Stats) (final, outs, oracle []string) {
 				s.wb = nil
 			} else {
 				s.wbCts = 0
+				s.opErr = false
 				if w[1] == "at" {
 					s.wbCts = cts
 				}
@@ -413,6 +419,17 @@ func execBatch(intents []string, st *Stats) (final, outs, oracle []string) {
 				st.Inc("split")
 				closeSeg(err == nil) // a commit that failed (sticky error) wrote nothing
 			}
+			if errors.Is(err, badger.ErrTxnTooBig) && !s.opErr {
+				// C28: ErrTxnTooBig is legitimate only for an entry that does not fit an empty
+				// transaction; here every earlier operation of the batch was accepted
+				_, maxSize, _ := badger.VerifLimits(s.db)
+				if int64(len(op.key)+len(op.val)+64) < maxSize {
+					fail("C28-accepted-toobig", fmt.Sprintf("%s on key %s answered ErrTxnTooBig although the entry fits an empty transaction and all %d earlier operations of the batch were accepted", w[0], hx(op.key), len(s.ops)))
+				}
+			}
+			if err != nil {
+				s.opErr = true
+			}
 			if err == nil {
 				s.nops++
 				op.idx = s.nops
@@ -441,6 +458,9 @@ func execBatch(intents []string, st *Stats) (final, outs, oracle []string) {
 				judge()
 			} else {
 				st.Inc("flush-err")
+				if errors.Is(err, badger.ErrTxnTooBig) && !s.opErr {
+					fail("C28-accepted-toobig", fmt.Sprintf("Flush answered ErrTxnTooBig although all %d operations of the batch were accepted", len(s.ops)))
+				}
 				settle(true) // what earlier splits committed stays committed
 			}
 		case "wb-cancel":
@@ -479,7 +499,55 @@ func genBatch(rng *rand.Rand, n int, st *Stats) []string {
 	return ops
 }
 
+// genBatchLimitSession (C28 / C27): a managed batch that writes ONE key at 2-4x maxBatchCount
+// distinct versions (every overwritten entry moves to duplicateWrites and is still sent with the
+// transaction, so it must keep counting against the batch limits), mixed with a few other keys;
+// Flush must succeed and every version must read back.
+func genBatchLimitSession(rng *rand.Rand, st *Stats) []string {
+	memsz := pick(rng, 65536, 65536, 32768) // maxBatchCount about 102 / 51
+	var ops []string
+	ops = append(ops, fmt.Sprintf("reset managed=1 keep=1000 thr=32 memsz=%d", memsz))
+	limit := 102
+	if memsz == 32768 {
+		limit = 51
+	}
+	n := limit*2 + rng.Intn(limit*2)
+	kind, cts := "managed", 0
+	if rng.Intn(3) == 0 {
+		kind, cts = "at", 100000+rng.Intn(5)
+	}
+	ops = append(ops, fmt.Sprintf("wb-new %s %d", kind, cts))
+	st.Inc(fmt.Sprintf("limit-session:kind=%s,memsz=%d", kind, memsz))
+	key := genUserKey(rng, 1, 3)
+	others := [][]byte{[]byte("o1"), []byte("o2"), []byte("o3")}
+	vers := rng.Perm(n)
+	if rng.Intn(2) == 0 { // increasing versions
+		for i := range vers {
+			vers[i] = i
+		}
+	}
+	for i := 0; i < n; i++ {
+		ver := vers[i] + 1
+		v := make([]byte, rng.Intn(10))
+		rng.Read(v)
+		r := rng.Intn(100)
+		switch {
+		case r < 8:
+			ops = append(ops, fmt.Sprintf("wb-setat %s %s %d 0 0 %d", hx(others[rng.Intn(len(others))]), hx(v), rng.Intn(256), ver))
+		case r < 15:
+			ops = append(ops, fmt.Sprintf("wb-delat %s %d", hx(key), ver))
+		default:
+			ops = append(ops, fmt.Sprintf("wb-setat %s %s %d 0 0 %d", hx(key), hx(v), rng.Intn(256), ver))
+		}
+	}
+	ops = append(ops, "wb-flush")
+	return ops
+}
+
 func genBatchSession(rng *rand.Rand, st *Stats) []string {
+	if params["scenario"] == "limit" || (params["scenario"] == "" && rng.Intn(15) == 0) {
+		return genBatchLimitSession(rng, st)
+	}
 	managed := rng.Intn(2) == 0
 	if params["managed"] != "" {
 		managed = params["managed"] == "1"
